@@ -150,12 +150,28 @@ def pelt_l2_end_to_end_stream(ctx, count):
                      {"what": "float-end-to-end-mismatch", "detector": "PELT"})
 
 
+def _from_data(ctx, case_type, terms2, metas2, what, tag):
+    """the univariate CUSUM cases once more WITHOUT the score table: Coq computes the scores with the binary64 kernel twin cusum_F from the data (Check/FloatRunCheck.v) and must
+    reproduce the detector; the premise cusum_trace_ok of the kernel's refinement theorem is evaluated on every cut the detector read"""
+    if not terms2:
+        return
+    for _ in terms2:
+        ctx.count("float_stream", "from-data:" + what)
+    noprem = coq_bad_cases(ctx.cid, HEADER_RUN, case_type, case_type.replace("_case", "_case_premise"), terms2, shard=30, tag=tag + "prem")
+    ctx.notes[f"binary64_from_data_premise({what})"] = f"cusum_trace_ok holds on every cut read in {len(terms2) - len(noprem)} of {len(terms2)} cases"
+    for i in coq_bad_cases(ctx.cid, HEADER_RUN, case_type, case_type.replace("_case", "_case_ok"), terms2, shard=30, tag=tag)[:20]:
+        mt = metas2[i]
+        ctx.mismatch(f"{what} on one float column (n={mt['n']}, threshold={mt['threshold']!r}): the binary64 kernel twin cusum_F followed by the generic search loop on primitive floats "
+                     f"does not reproduce the implementation from the DATA (changepoints {mt['impl_changepoints']} / scores bit for bit)", mt, {"what": "float-end-to-end-mismatch", "detector": what})
+
+
 def mw_float_stream(ctx, count):
     from skchange.change_detectors import MovingWindow
     from skchange.change_scores import CUSUM, ChangeScore
     from skchange.costs import GaussianVarCost, L2Cost
     rng = ctx.rng
     terms, metas = [], []
+    terms2, metas2 = [], []
     for it in range(count):
         name, mk, ms = [("CUSUM", CUSUM, 1), ("ChangeScore(L2Cost)", lambda: ChangeScore(L2Cost()), 1),
                         ("ChangeScore(GaussianVarCost)", lambda: ChangeScore(GaussianVarCost()), 2)][it % 3]
@@ -183,9 +199,13 @@ def mw_float_stream(ctx, count):
                      % (n, b, fl(thr), mdi, flist(row), flist(scores), nlist(cpts)))
         metas.append({"detector": "MovingWindow", "score": name, "bandwidth": b, "min_detection_interval": mdi, "n": n, "p": p, "data": kind, "X": Xn.tolist(),
                       "threshold": thr, "impl_changepoints": cpts, "_row": row, "_scores": [float(v) for v in scores]})
+        if name == "CUSUM" and p == 1:
+            terms2.append("{| w2_xs := %s; w2_b := %d%%nat; w2_thr := %s; w2_mdi := %d%%nat; w2_scores := %s; w2_cpts := %s |}" % (flist(Xn[:, 0]), b, fl(thr), mdi, flist(scores), nlist(cpts)))
+            metas2.append({k_: v_ for k_, v_ in metas[-1].items() if not k_.startswith("_")})
         ctx.case({"float": "mw", "it": it, "n": n, "b": b, "score": name, "x0": float(Xn[0, 0])}, nontrivial=len(cpts) > 0,
                  sample={"stream": "binary64-table MovingWindow", "score": name, "n": n, "bandwidth": b, "impl_changepoints": cpts})
         ctx.count("float_stream", "mw:" + name)
+    _from_data(ctx, "fmw2_case", terms2, metas2, "MovingWindow(CUSUM)", "fmw2")
     bad = coq_bad_cases(ctx.cid, HEADER, "fmw_case", "fmw_any_case_ok", terms, shard=60, tag="fmw")
     _spec_all(ctx, metas, bad, lambda mt: _mw_spec(mt, mt["_row"], mt["_scores"]), "MovingWindow",
               lambda mt: f"MovingWindow({mt['score']}) on float data (n={mt['n']}, bandwidth={mt['bandwidth']}, p={mt['p']}, {mt['data']})")
@@ -207,6 +227,7 @@ def sbs_float_stream(ctx, count):
     from skchange.costs import GaussianVarCost, L2Cost
     rng = ctx.rng
     terms, metas = [], []
+    terms2, metas2 = [], []
     for it in range(count):
         name, mk, ms = [("CUSUM", CUSUM, 1), ("ChangeScore(L2Cost)", lambda: ChangeScore(L2Cost()), 1),
                         ("ChangeScore(GaussianVarCost)", lambda: ChangeScore(GaussianVarCost()), 2)][it % 3]
@@ -244,9 +265,14 @@ def sbs_float_stream(ctx, count):
         metas.append({"detector": "SeededBinarySegmentation", "score": name, "min_segment_length": m, "max_interval_length": M, "growth_factor": gf, "n": n, "p": p,
                       "data": kind, "X": Xn.tolist(), "threshold": thr, "impl_changepoints": cpts, "intervals": [list(t) for t in ivs],
                       "_rows": rows, "_argmax": [int(v) for v in tabl["argmax_cpt"]], "_max": [float(v) for v in tabl["score"]]})
+        if name == "CUSUM" and p == 1:
+            terms2.append("{| s2_xs := %s; s2_m := %d%%nat; s2_thr := %s; s2_ivs := %s; s2_cpts := %s; s2_argmax := %s; s2_max := %s |}"
+                          % (flist(Xn[:, 0]), m, fl(thr), pairs_nat(ivs), nlist(cpts), nlist([int(v) for v in tabl["argmax_cpt"]]), flist([float(v) for v in tabl["score"]])))
+            metas2.append({k_: v_ for k_, v_ in metas[-1].items() if not k_.startswith("_")})
         ctx.case({"float": "sbs", "it": it, "n": n, "m": m, "score": name, "x0": float(Xn[0, 0])}, nontrivial=len(cpts) > 0,
                  sample={"stream": "binary64-table SeededBinarySegmentation", "score": name, "n": n, "m": m, "n_intervals": len(ivs), "impl_changepoints": cpts})
         ctx.count("float_stream", "sbs:" + name)
+    _from_data(ctx, "fsbs2_case", terms2, metas2, "SeededBinarySegmentation(CUSUM)", "fsbs2")
     bad = coq_bad_cases(ctx.cid, HEADER, "fsbs_case", "fsbs_any_case_ok", terms, shard=40, tag="fsbs")
     _spec_all(ctx, metas, bad, lambda mt: _sbs_spec(mt, mt["_rows"], mt["_argmax"], mt["_max"]), "SeededBinarySegmentation",
               lambda mt: f"SeededBinarySegmentation({mt['score']}) on float data (n={mt['n']}, m={mt['min_segment_length']}, p={mt['p']}, {mt['data']})")
